@@ -829,7 +829,7 @@ func (r *c04Run) bfs(pool *axServerPool, roots []*c04State, maxDepth int, deadli
 				continue
 			}
 			attempts[cd.Sig]++
-			if !r.confirm(pool.get(0), cd) {
+			if !r.confirm(pool.get(axFreshIndex()), cd) { // a FRESH server (with the pool's init): process-lifetime state must not make a finding look unstable
 				// not reproduced from its recorded history: never reported (DESIGN §1 rule 2)
 				r.unstable.Add(1)
 				fmt.Printf("[bfs %s] candidate %s did not reproduce from history %v\n", r.run.Property, cd.Sig, c04PathNames(cd.Path))
